@@ -166,6 +166,7 @@ def fn_signature(f):
         'ret': f['locals'][0]['s'],
         'async': f.get('async', False),
         'callees': sorted(callees),
+        'file': f.get('file'),
     }
 
 
@@ -181,6 +182,13 @@ def signatures(j):
         if c is not None and c.get('coroutine'):
             sig['callees'] = sorted(sig['callees'] + fn_signature(c)['callees'])
     return out
+
+
+def _short(ty):
+    """a type string with the module paths of its type names removed (`&blob::core::RawRecords` -> `&RawRecords`): a type that
+    moved to another module together with its functions is still the same parameter type"""
+    import re
+    return re.sub(r'(?:[A-Za-z_][A-Za-z0-9_]*::)+([A-Za-z_][A-Za-z0-9_]*)', r'\1', ty or '')
 
 
 def jaccard(a, b):
@@ -207,13 +215,15 @@ def rebind_functions(j):
         scored = []
         for n in fresh:
             ns = cur[n]
-            if ns['args'] != ms['args'] or ns['ret'] != ms['ret'] or ns['async'] != ms['async']:
+            if [_short(x) for x in ns['args']] != [_short(x) for x in ms['args']] or _short(ns['ret']) != _short(ms['ret']) or ns['async'] != ms['async']:
                 continue
             if ms['trait_item'] != ns['trait_item']:
                 continue
             s = jaccard(ms['callees'], ns['callees'])
-            if ms['impl'] == ns['impl']:
+            if ms['impl'] == ns['impl'] or _short(ms['impl'] or '') == _short(ns['impl'] or ''):
                 s += 0.1
+            if n.rsplit('::', 1)[-1] == m.rsplit('::', 1)[-1]:
+                s += 0.1     # same name, another module
             scored.append((s, n))
         scored.sort(reverse=True)
         if scored and scored[0][0] >= 0.6 and (len(scored) == 1 or scored[0][0] - scored[1][0] >= 0.15) and scored[0][1] not in binding:
@@ -235,6 +245,11 @@ def rebind_functions(j):
         for k in ('id', 'root', 'parent'):
             if k in f:
                 f[k] = ren(f[k])
+        # a function that moved to another file keeps, for the rules, the file it was pinned in (reports show the real one)
+        pinned = table.get(f.get('root', f['id'])) or table.get(f['id'])
+        if pinned and pinned.get('file') and f.get('root', f['id']) in binding.values() and pinned['file'] != f.get('file'):
+            f['file_actual'] = f.get('file')
+            f['file'] = pinned['file']
         for l in f['locals']:
             if l.get('h') in ('closure', 'coroutine', 'fndef') and l.get('a'):
                 l['a'] = [ren(x) for x in l['a']]
